@@ -168,21 +168,25 @@ Qed.
 Lemma create_all_props : forall k mk fcr js keys renv keys1 renv1 e err,
   create_all k mk fcr js keys renv = (keys1, renv1, e, err) ->
   deletes e = [] /\ incl keys keys1 /\ (forall k' j, k' <> k -> renv1 k' j = renv k' j) /\
-  (err = false -> forall j, In j js -> In (k, j) keys1).
+  (err = false -> forall j, In j js -> In (k, j) keys1) /\
+  ((forall k' j, r_exists (renv k' j) = true -> r_st (renv k' j) = true) ->
+   forall k' j, r_exists (renv1 k' j) = true -> r_st (renv1 k' j) = true).
 Proof.
   induction js as [|j t IH]; simpl; intros keys renv keys1 renv1 e err H.
-  - inversion H; subst. repeat split; auto using incl_refl. intros; contradiction.
+  - inversion H; subst. split; [reflexivity|]. split; [apply incl_refl|]. split; [reflexivity|].
+    split; [intros _ j []|]. auto.
   - destruct (mem j fcr).
     + destruct (create_all k mk fcr t keys renv) as [[[ks rv] e'] er] eqn:E.
-      inversion H; subst; clear H. apply IH in E. destruct E as [D [I [R A]]].
-      repeat split; auto. discriminate.
+      inversion H; subst; clear H. apply IH in E. destruct E as [D [I [R [A T]]]].
+      split; [assumption|]. split; [assumption|]. split; [assumption|]. split; [discriminate | assumption].
     + destruct (create_all k mk fcr t (keys ++ [(k, j)]) (upd2 renv k j (mkRepl true false false true))) as [[[ks rv] e'] er] eqn:E.
-      inversion H; subst; clear H. apply IH in E. destruct E as [D [I [R A]]].
+      inversion H; subst; clear H. apply IH in E. destruct E as [D [I [R [A T]]]].
       split; [simpl; assumption|]. split; [intros x Hx; apply I; apply in_or_app; auto|].
-      split.
+      split; [|split].
       * intros k' j' Hk. rewrite R by assumption. unfold upd2.
         destruct (k' =? k) eqn:Ek; [apply Nat.eqb_eq in Ek; contradiction | reflexivity].
       * intros He j' [<-|Hj]; [apply I; apply in_or_app; right; simpl; auto | auto].
+      * intros Ht. apply T. intros k' j'. unfold upd2. destruct ((k' =? k) && (j' =? j)); [reflexivity | apply Ht].
 Qed.
 
 Lemma untaint_all_props : forall cs nodes fut nodes' e err,
@@ -249,26 +253,26 @@ Qed.
 
 Lemma delete_all_props : forall cands nodes fdel ready deleted nodes' e dl err,
   delete_all nodes fdel ready cands deleted = (nodes', e, dl, err) ->
-  (forall n r, In (n, r) (deletes e) -> In n cands /\ r = ready) /\
+  (forall n a t, In (n, a, t) (deletes e) -> In n cands /\ a = fst ready /\ t = snd ready) /\
   (forall x, n_mark (nodes' x) = n_mark (nodes x)) /\
-  (err = false -> deletes e = [] -> forall x, n_del (nodes' x) = n_del (nodes x)).
+  ((forall m, call_result true (lookup fdel m) <> Failed) -> err = false).
 Proof.
   induction cands as [|c t IH]; simpl; intros nodes fdel ready deleted nodes' e dl err H.
-  - inversion H; subst. split; [intros n0 r0 []|]. split; [reflexivity|]. reflexivity.
-  - destruct (call_result true (lookup fdel c)).
+  - inversion H; subst. split; [intros n0 a0 t0 []|]. split; reflexivity.
+  - destruct (call_result true (lookup fdel c)) eqn:Ec.
     + destruct (delete_all (upd nodes c (set_del (nodes c) true)) fdel ready t (tl deleted)) as [[[n1 e1] d1] er] eqn:E.
-      inversion H; subst; clear H. apply IH in E. destruct E as [A [M _]].
+      inversion H; subst; clear H. apply IH in E. destruct E as [A [M N]].
       split; [|split].
-      * intros n r [Heq|Hin]; [inversion Heq; subst; auto | destruct (A n r Hin); auto].
+      * intros n a t0 [Heq|Hin]; [inversion Heq; subst; auto | destruct (A n a t0 Hin) as [? [? ?]]; auto].
       * intros x. rewrite M. unfold upd. destruct (x =? c) eqn:Ex; [apply Nat.eqb_eq in Ex; subst|]; reflexivity.
-      * intros _ Hd. simpl in Hd. discriminate.
+      * assumption.
     + destruct (delete_all nodes fdel ready t (tl deleted)) as [[[n1 e1] d1] er] eqn:E.
-      inversion H; subst; clear H. apply IH in E. destruct E as [A [M Dn]]. split; [|split]; auto.
-      intros n r Hin. destruct (A n r Hin); auto.
+      inversion H; subst; clear H. apply IH in E. destruct E as [A [M N]]. split; [|split]; auto.
+      intros n a t0 Hin. destruct (A n a t0 Hin) as [? [? ?]]; auto.
     + destruct (delete_all nodes fdel ready t (tl deleted)) as [[[n1 e1] d1] er] eqn:E.
-      inversion H; subst; clear H. apply IH in E. destruct E as [A [M Dn]]. split; [|split]; auto.
-      * intros n r Hin. destruct (A n r Hin); auto.
-      * discriminate.
+      inversion H; subst; clear H. apply IH in E. destruct E as [A [M N]]. split; [|split]; auto.
+      * intros n a t0 Hin. destruct (A n a t0 Hin) as [? [? ?]]; auto.
+      * intros Hno. exfalso. apply (Hno c). assumption.
 Qed.
 
 (* ------------------------------------------------------------------ the wait loop *)
@@ -279,18 +283,22 @@ Lemma wait_loop_general : forall l renv fget j0 l' w v,
   (forall i, nth i l' false = true -> nth i l false = true \/ r_init (renv (j0 + i)) = true) /\
   (w = false -> v = false ->
      forallb id l' = true /\
-     forall i, i < length l -> nth i l false = true \/ (r_exists (renv (j0 + i)) = true /\ r_init (renv (j0 + i)) = true)).
+     forall i, i < length l ->
+       (nth i l false = true /\ r_st (renv (j0 + i)) = true) \/
+       (r_exists (renv (j0 + i)) = true /\ r_init (renv (j0 + i)) = true)).
 Proof.
   induction l as [|b rest IH]; simpl; intros renv fget j0 l' w v H.
   - inversion H; subst. split; [reflexivity|]. split; [intros i Hi; destruct i; discriminate|].
     intros _ _. split; [reflexivity | intros i Hi; lia].
   - assert (Hshift : forall i, j0 + S i = S j0 + i) by (intros; lia).
     destruct b.
-    + destruct (wait_loop renv fget (S j0) rest) as [[l1 w1] v1] eqn:E. inversion H; subst; clear H.
-      apply IH in E. destruct E as [L [A B]]. split; [simpl; congruence|]. split.
-      * intros [|i] Hi; [left; reflexivity|]. simpl in Hi. rewrite Hshift. apply A. assumption.
-      * intros Hw Hv. destruct (B Hw Hv) as [B1 B2]. split; [simpl; assumption|].
-        intros [|i] Hi; [left; reflexivity|]. rewrite Hshift. apply B2. lia.
+    + destruct (r_st (renv j0)) eqn:Est.
+      * destruct (wait_loop renv fget (S j0) rest) as [[l1 w1] v1] eqn:E. inversion H; subst; clear H.
+        apply IH in E. destruct E as [L [A B]]. split; [simpl; congruence|]. split.
+        -- intros [|i] Hi; [left; reflexivity|]. simpl in Hi. rewrite Hshift. apply A. assumption.
+        -- intros Hw Hv. destruct (B Hw Hv) as [B1 B2]. split; [simpl; assumption|].
+           intros [|i] Hi; [left; rewrite Nat.add_0_r; auto|]. rewrite Hshift. apply B2. lia.
+      * inversion H; subst; clear H. split; [reflexivity|]. split; [intros i Hi; left; assumption | discriminate].
     + destruct (lookup fget j0) as [[|]|] eqn:Ef.
       * destruct (wait_loop renv fget (S j0) rest) as [[l1 w1] v1] eqn:E. inversion H; subst; clear H.
         apply IH in E. destruct E as [L [A B]]. split; [simpl; congruence|]. split.
@@ -325,11 +333,13 @@ Proof.
               ** discriminate.
 Qed.
 
-Lemma wait_loop_alltrue : forall l renv fget j0, forallb id l = true -> wait_loop renv fget j0 l = (l, false, false).
+(* a command whose replacements are all latched is never "waiting" *)
+Lemma wait_loop_alltrue : forall l renv fget j0, forallb id l = true -> exists v, wait_loop renv fget j0 l = (l, false, v).
 Proof.
-  induction l as [|b rest IH]; simpl; intros renv fget j0 H; [reflexivity|].
+  induction l as [|b rest IH]; simpl; intros renv fget j0 H; [eexists; reflexivity|].
   apply andb_true_iff in H. destruct H as [Hb Hr]. unfold id in Hb. subst b.
-  rewrite IH by assumption. reflexivity.
+  destruct (r_st (renv j0)); [|eexists; reflexivity].
+  destruct (IH renv fget (S j0) Hr) as [v ->]. eexists; reflexivity.
 Qed.
 
 Lemma forallb_id_nth : forall l i, forallb id l = true -> i < length l -> nth i l false = true.
@@ -345,24 +355,27 @@ Record inv (s : state) : Prop := mkInv {
   inv_latch : forall c j, In c (s_q s) -> nth j (c_latched c) false = true -> r_init (s_repl s (c_id c) j) = true;
   inv_keys  : forall c j, In c (s_q s) -> j < length (c_latched c) -> In (c_id c, j) (s_keys s);
   inv_fresh : forall c, In c (s_q s) -> c_id c < s_next s;
-  inv_del   : forall c, In c (s_q s) -> existsb id (c_deleted c) = true -> forallb id (c_latched c) = true
+  inv_del   : forall c, In c (s_q s) -> existsb id (c_deleted c) = true -> forallb id (c_latched c) = true;
+  inv_track : forall k j, r_exists (s_repl s k j) = true -> r_st (s_repl s k j) = true
 }.
 
 Lemma inv_init : forall n, inv (init n).
-Proof. intros n. constructor; simpl; try (intros; contradiction). constructor. Qed.
+Proof. intros n. constructor; simpl; try (intros; contradiction); try discriminate. constructor. Qed.
 
 (* the queue is untouched, Initialized facts of existing commands' replacements only grow *)
 Lemma inv_weaken : forall s s',
   inv s -> s_q s' = s_q s ->
   (forall k j, k < s_next s -> r_init (s_repl s k j) = true -> r_init (s_repl s' k j) = true) ->
+  (forall k j, r_exists (s_repl s' k j) = true -> r_st (s_repl s' k j) = true) ->
   incl (s_keys s) (s_keys s') -> s_next s <= s_next s' -> inv s'.
 Proof.
-  intros s s' [I1 I2 I3 I4 I5] Hq Hr Hk Hn. constructor.
+  intros s s' [I1 I2 I3 I4 I5 I6] Hq Hr Ht Hk Hn. constructor.
   - rewrite Hq. assumption.
   - rewrite Hq. intros c j Hc Hl. apply Hr; [apply I4; assumption | apply I2; assumption].
   - rewrite Hq. intros c j Hc Hj. apply Hk. apply I3; assumption.
   - rewrite Hq. intros c Hc. specialize (I4 c Hc). lia.
   - rewrite Hq. assumption.
+  - assumption.
 Qed.
 
 Lemma existsb_id_false : forall l, existsb id l = false -> forall d, In d l -> d = false.
@@ -390,29 +403,31 @@ Proof.
   intros s cands nrepl ft fc fcr s' r e Hinv H. unfold start in H.
   assert (Hw : forall nodes keys renv,
             incl (s_keys s) keys -> (forall k' j, k' <> s_next s -> renv k' j = s_repl s k' j) ->
+            (forall k' j, r_exists (renv k' j) = true -> r_st (renv k' j) = true) ->
             inv (mkState (s_n s) nodes (s_q s) keys renv (s_now s) (S (s_next s)))).
-  { intros nodes keys renv Hk Hr. apply (inv_weaken s); simpl; auto.
+  { intros nodes keys renv Hk Hr Ht. apply (inv_weaken s); simpl; auto.
     intros k j Hlt Hi. rewrite Hr by lia. assumption. }
+  pose proof (inv_track s Hinv) as Htrack.
   destruct (negb (valid_cands (s_n s) cands)) eqn:Ev.
   { inversion H; subst; clear H. simpl.
     split; [reflexivity|]. split; [intros _; split; [reflexivity | intros; reflexivity]|].
-    split; [discriminate|]. split; [apply Hw; [apply incl_refl | reflexivity]|].
+    split; [discriminate|]. split; [apply Hw; [apply incl_refl | reflexivity | assumption]|].
     split; [reflexivity | right; reflexivity]. }
   destruct (existsb (in_queue (s_q s)) cands) eqn:Eb.
   { inversion H; subst; clear H. simpl.
     split; [reflexivity|]. split; [intros _; split; [reflexivity | intros; reflexivity]|].
-    split; [discriminate|]. split; [apply Hw; [apply incl_refl | reflexivity]|].
+    split; [discriminate|]. split; [apply Hw; [apply incl_refl | reflexivity | assumption]|].
     split; [reflexivity | right; reflexivity]. }
   destruct (mark_all (s_nodes s) ft fc cands) as [[[nodes1 e1] marked] err] eqn:Em.
   apply mark_all_props in Em. destruct Em as [D1 [M1 [Sub Nd]]].
   destruct (err && ((0 <? nrepl) || is_nil marked)).
   { inversion H; subst; clear H. simpl.
     split; [assumption|]. split; [intros _; split; [reflexivity | assumption]|].
-    split; [discriminate|]. split; [apply Hw; [apply incl_refl | reflexivity]|].
+    split; [discriminate|]. split; [apply Hw; [apply incl_refl | reflexivity | assumption]|].
     split; [reflexivity | right; reflexivity]. }
   destruct (create_all (s_next s) (existsb (fun c => n_mark (nodes1 c)) marked) fcr (seq 0 nrepl) (s_keys s) (s_repl s))
     as [[[keys1 renv1] e2] cerr] eqn:Ec.
-  apply create_all_props in Ec. destruct Ec as [D2 [Inc [Rv All]]].
+  apply create_all_props in Ec. destruct Ec as [D2 [Inc [Rv [All Trk]]]]. specialize (Trk Htrack).
   destruct cerr.
   { inversion H; subst; clear H. simpl. rewrite deletes_app, D1, D2.
     split; [reflexivity|]. split; [intros _; split; [reflexivity | assumption]|].
@@ -437,7 +452,7 @@ Proof.
           * constructor; [|assumption]. intros Hin. specialize (Hhd a Hin). simpl in Hhd. lia.
           * intros x [<-|Hx]; simpl; [lia|]. specialize (Hhd x Hx). simpl in Hhd. lia. }
     apply G; assumption. }
-  destruct Hinv as [I1 I2 I3 I4 I5]. constructor; simpl.
+  destruct Hinv as [I1 I2 I3 I4 I5 I6]. constructor; simpl; [| | | | | exact Trk].
   - rewrite map_app, concat_app. simpl. rewrite app_nil_r. apply NoDup_app_intro; auto.
     intros x Hx Hm. apply in_concat_cands in Hx. destruct Hx as [c [Hc Hxc]].
     assert (existsb (in_queue (s_q s)) cands = true).
@@ -467,13 +482,19 @@ Proof.
   intros renv n H. unfold all_ready. apply forallb_seq. intros j Hj. destruct (H j Hj) as [-> ->]. reflexivity.
 Qed.
 
+Lemma all_tracked_intro : forall renv n, (forall i, i < n -> r_st (renv i) = true) -> all_tracked renv n = true.
+Proof. intros renv n H. unfold all_tracked. apply forallb_seq. assumption. Qed.
+
 Lemma inv_remove : forall s n nodes,
   inv s -> inv (mkState (s_n s) nodes (remove_cmd (s_q s) n) (s_keys s) (s_repl s) (s_now s) (s_next s)).
 Proof.
-  intros s n nodes [I1 I2 I3 I4 I5]. constructor; simpl;
-    try (intros c; rewrite in_remove; intros [Hc _]; auto);
-    try (intros c j; rewrite in_remove; intros [Hc _]; auto).
-  apply NoDup_concat_filter. assumption.
+  intros s n nodes [I1 I2 I3 I4 I5 I6]. constructor; simpl.
+  - apply NoDup_concat_filter. assumption.
+  - intros c j; rewrite in_remove; intros [Hc _]; auto.
+  - intros c j; rewrite in_remove; intros [Hc _]; auto.
+  - intros c; rewrite in_remove; intros [Hc _]; auto.
+  - intros c; rewrite in_remove; intros [Hc _]; auto.
+  - assumption.
 Qed.
 
 Lemma inv_replace : forall s n nodes c c',
@@ -483,7 +504,7 @@ Lemma inv_replace : forall s n nodes c c',
   (existsb id (c_deleted c') = true -> forallb id (c_latched c') = true) ->
   inv (mkState (s_n s) nodes (replace_cmd (s_q s) n c') (s_keys s) (s_repl s) (s_now s) (s_next s)).
 Proof.
-  intros s n nodes c c' [I1 I2 I3 I4 I5] Hf Hid Hc Hlen Hl Hd.
+  intros s n nodes c c' [I1 I2 I3 I4 I5 I6] Hf Hid Hc Hlen Hl Hd.
   destruct (find_holds _ _ _ Hf) as [Hin Hn].
   constructor; simpl.
   - rewrite (replace_same_cands _ _ c c'); auto.
@@ -491,16 +512,20 @@ Proof.
   - intros x j Hx Hj. apply in_replace in Hx. destruct Hx as [->|[Hx _]]; [rewrite Hid; apply I3; [assumption | lia] | auto].
   - intros x Hx. apply in_replace in Hx. destruct Hx as [->|[Hx _]]; [rewrite Hid; auto | auto].
   - intros x Hx Hdx. apply in_replace in Hx. destruct Hx as [->|[Hx _]]; auto.
+  - assumption.
 Qed.
+
+(* no command of the queue has deleted anything yet *)
+Definition clean (q : list cmd) : Prop := forall c, In c q -> forall d, In d (c_deleted c) -> d = false.
 
 Lemma recon_facts : forall s n fget fdel fut fcl c s' r e,
   inv s -> find (holds_node n) (s_q s) = Some c -> recon s n fget fdel fut fcl = (s', (r, e)) ->
-  (forall m rd, In (m, rd) (deletes e) ->
-     In m (c_cands c) /\
+  (forall m a t, In (m, a, t) (deletes e) ->
+     In m (c_cands c) /\ t = true /\
      (forall j, j < length (c_latched c) -> In (c_id c, j) (s_keys s) /\ r_init (s_repl s (c_id c) j) = true) /\
-     ((forall b, In b (c_latched c) -> b = false) -> rd = true)) /\
-  (r = RFailed -> (retry_ms (s_q s) <? s_now s - c_created c)%Z = false ->
-     deletes e = [] /\ (forall d, In d (c_deleted c) -> d = false) /\ forall x, n_del (s_nodes s' x) = n_del (s_nodes s x)) /\
+     ((forall j, j < length (c_latched c) -> r_exists (s_repl s (c_id c) j) = false -> r_st (s_repl s (c_id c) j) = false) -> a = true)) /\
+  ((forall m, call_result true (lookup fdel m) <> Failed) ->
+     (r = RFailed -> deletes e = []) /\ (clean (s_q s) -> clean (s_q s'))) /\
   (r = RFailed -> s_q s' = remove_cmd (s_q s) n /\ forall m, In m (c_cands c) -> n_mark (s_nodes s' m) = false) /\
   inv s' /\ s_n s' = s_n s.
 Proof.
@@ -508,31 +533,29 @@ Proof.
   destruct (find_holds _ _ _ Hf) as [Hin Hn].
   destruct (wait_loop (s_repl s (c_id c)) fget 0 (c_latched c)) as [[l' w] v] eqn:Ew.
   pose proof (wait_loop_general _ _ _ _ _ _ _ Ew) as [Hlen [Hlat Hnow]].
-  (* facts about the failure branch, for any starting nodes and effects without / with deletes *)
   assert (Hfail : forall nodes e0,
     let '(nodes1, e1, _) := untaint_all nodes fut (c_cands c) in
     let '(nodes2, e2, _) := clear_all nodes1 fcl (c_cands c) in
-    deletes (e0 ++ e1 ++ e2) = deletes e0 /\
-    (forall x, n_del (mark_set nodes2 (c_cands c) false x) = n_del (nodes x))).
+    deletes (e0 ++ e1 ++ e2) = deletes e0).
   { intros nodes e0. destruct (untaint_all nodes fut (c_cands c)) as [[nodes1 e1] er1] eqn:E1.
     destruct (clear_all nodes1 fcl (c_cands c)) as [[nodes2 e2] er2] eqn:E2.
-    apply untaint_all_props in E1. destruct E1 as [D1 [F1 _]].
-    apply clear_all_props in E2. destruct E2 as [D2 [F2 _]].
-    split; [rewrite !deletes_app, D1, D2, app_nil_r; reflexivity|].
-    intros x. rewrite mark_set_del. destruct (F2 x) as [_ [-> _]]. destruct (F1 x) as [_ [-> _]]. reflexivity. }
+    apply untaint_all_props in E1. destruct E1 as [D1 _].
+    apply clear_all_props in E2. destruct E2 as [D2 _].
+    rewrite !deletes_app, D1, D2, app_nil_r. reflexivity. }
   assert (Hlatch : forall j, nth j l' false = true -> r_init (s_repl s (c_id c) j) = true).
   { intros j Hj. destruct (Hlat j Hj) as [Ho|Hi]; [eapply inv_latch; eauto | exact Hi]. }
+  assert (Hclean_rm : clean (s_q s) -> clean (remove_cmd (s_q s) n)).
+  { intros Hc x Hx. apply in_remove in Hx. destruct Hx as [Hx _]. apply Hc. assumption. }
+  assert (Hclean_rp : forall c', c_deleted c' = c_deleted c -> clean (s_q s) -> clean (replace_cmd (s_q s) n c')).
+  { intros c' Hd Hc x Hx. apply in_replace in Hx. destruct Hx as [->|[Hx _]]; [rewrite Hd; apply Hc; assumption | apply Hc; assumption]. }
   destruct v.
   { (* a replacement is gone: unrecoverable *)
     specialize (Hfail (s_nodes s) []).
     destruct (untaint_all (s_nodes s) fut (c_cands c)) as [[nodes1 e1] er1].
     destruct (clear_all nodes1 fcl (c_cands c)) as [[nodes2 e2] er2].
-    inversion H; subst; clear H. destruct Hfail as [Dd Dn]. simpl in Dd.
-    split; [intros m rd Hm; simpl in Hm; rewrite Dd in Hm; contradiction|].
-    split.
-    { intros _ _. split; [exact Dd|]. split; [|exact Dn].
-      destruct (existsb id (c_deleted c)) eqn:Ee; [|apply existsb_id_false; assumption].
-      pose proof (inv_del s Hinv c Hin Ee) as Hall. rewrite (wait_loop_alltrue _ _ _ _ Hall) in Ew. discriminate. }
+    inversion H; subst; clear H. simpl in Hfail.
+    split; [intros m a t Hm; simpl in Hm; rewrite Hfail in Hm; contradiction|].
+    split; [intros _; split; [intros _; exact Hfail | exact Hclean_rm]|].
     split; [intros _; split; [reflexivity | intros m Hm; apply mark_set_false; assumption]|].
     split; [apply inv_remove; assumption | reflexivity]. }
   destruct w.
@@ -540,48 +563,57 @@ Proof.
     - specialize (Hfail (s_nodes s) []).
       destruct (untaint_all (s_nodes s) fut (c_cands c)) as [[nodes1 e1] er1].
       destruct (clear_all nodes1 fcl (c_cands c)) as [[nodes2 e2] er2].
-      inversion H; subst; clear H. destruct Hfail as [Dd Dn]. simpl in Dd.
-      split; [intros m rd Hm; simpl in Hm; rewrite Dd in Hm; contradiction|].
-      split; [intros _ Hc; discriminate|].
+      inversion H; subst; clear H. simpl in Hfail.
+      split; [intros m a t Hm; simpl in Hm; rewrite Hfail in Hm; contradiction|].
+      split; [intros _; split; [intros _; exact Hfail | exact Hclean_rm]|].
       split; [intros _; split; [reflexivity | intros m Hm; apply mark_set_false; assumption]|].
       split; [apply inv_remove; assumption | reflexivity].
     - inversion H; subst; clear H.
-      split; [intros m rd []|]. split; [discriminate|]. split; [discriminate|].
+      split; [intros m a t []|].
+      split; [intros _; split; [discriminate | apply Hclean_rp; reflexivity]|].
+      split; [discriminate|].
       split; [|reflexivity].
       apply (inv_replace s n (s_nodes s) c); simpl; auto.
       intros Hd. pose proof (inv_del s Hinv c Hin Hd) as Hall.
-      rewrite (wait_loop_alltrue _ _ _ _ Hall) in Ew. discriminate. }
+      destruct (wait_loop_alltrue _ (s_repl s (c_id c)) fget 0 Hall) as [v' Hv']. rewrite Hv' in Ew. discriminate. }
   (* every replacement is latched: the delete phase *)
   destruct (Hnow eq_refl eq_refl) as [Hall Hready].
-  destruct (delete_all (s_nodes s) fdel (all_ready (s_repl s (c_id c)) (length (c_latched c))) (c_cands c) (c_deleted c))
-    as [[[nodes1 ed] dl] derr] eqn:Ed.
+  destruct (delete_all (s_nodes s) fdel
+              (all_ready (s_repl s (c_id c)) (length (c_latched c)), all_tracked (s_repl s (c_id c)) (length (c_latched c)))
+              (c_cands c) (c_deleted c)) as [[[nodes1 ed] dl] derr] eqn:Ed.
   apply delete_all_props in Ed. destruct Ed as [Hd1 [Hd2 Hd3]].
-  assert (Hdel : forall m rd, In (m, rd) (deletes ed) ->
-     In m (c_cands c) /\
+  assert (Hdel : forall m a t, In (m, a, t) (deletes ed) ->
+     In m (c_cands c) /\ t = true /\
      (forall j, j < length (c_latched c) -> In (c_id c, j) (s_keys s) /\ r_init (s_repl s (c_id c) j) = true) /\
-     ((forall b, In b (c_latched c) -> b = false) -> rd = true)).
-  { intros m rd Hm. destruct (Hd1 m rd Hm) as [Hmc ->]. split; [assumption|]. split.
+     ((forall j, j < length (c_latched c) -> r_exists (s_repl s (c_id c) j) = false -> r_st (s_repl s (c_id c) j) = false) -> a = true)).
+  { intros m a t Hm. destruct (Hd1 m a t Hm) as [Hmc [-> ->]]. simpl. split; [assumption|]. split; [|split].
+    - apply all_tracked_intro. intros i Hi. destruct (Hready i Hi) as [[_ Hs]|[Hx _]]; [exact Hs | apply (inv_track s Hinv); exact Hx].
     - intros j Hj. split; [eapply inv_keys; eauto|].
-      destruct (Hready j Hj) as [Ho|[_ Hi]]; [eapply inv_latch; eauto | exact Hi].
-    - intros Hfresh. apply all_ready_intro. intros i Hi. destruct (Hready i Hi) as [Ho|Hr]; [|exact Hr].
-      assert (In (nth i (c_latched c) false) (c_latched c)) by (apply nth_In; assumption).
-      rewrite Ho in H0. apply Hfresh in H0. discriminate. }
-  destruct (retry_ms (s_q s) <? s_now s - c_created c)%Z eqn:Et.
-  - specialize (Hfail nodes1 ed).
-    destruct (untaint_all nodes1 fut (c_cands c)) as [[nodes2 e1] er1].
-    destruct (clear_all nodes2 fcl (c_cands c)) as [[nodes3 e2] er2].
-    inversion H; subst; clear H. destruct Hfail as [Dd Dn].
-    split; [intros m rd Hm; rewrite Dd in Hm; auto|].
-    split; [intros _ Hc; discriminate|].
-    split; [intros _; split; [reflexivity | intros m Hm; apply mark_set_false; assumption]|].
-    split; [apply inv_remove; assumption | reflexivity].
-  - destruct derr.
-    + inversion H; subst; clear H.
-      split; [assumption|]. split; [discriminate|]. split; [discriminate|]. split; [|reflexivity].
-      apply (inv_replace s n nodes1 c); simpl; auto.
-    + inversion H; subst; clear H.
-      split; [assumption|]. split; [discriminate|]. split; [discriminate|].
+      destruct (Hready j Hj) as [[Ho _]|[_ Hi]]; [eapply inv_latch; eauto | exact Hi].
+    - intros Hdone. apply all_ready_intro. intros i Hi. destruct (Hready i Hi) as [[Ho Hs]|Hr]; [|exact Hr].
+      split; [|eapply inv_latch; eauto].
+      destruct (r_exists (s_repl s (c_id c) i)) eqn:Ex; [reflexivity|].
+      simpl in Hs. rewrite (Hdone i Hi Ex) in Hs. discriminate. }
+  destruct derr.
+  - destruct (retry_ms (s_q s) <? s_now s - c_created c)%Z eqn:Et.
+    + specialize (Hfail nodes1 ed).
+      destruct (untaint_all nodes1 fut (c_cands c)) as [[nodes2 e1] er1].
+      destruct (clear_all nodes2 fcl (c_cands c)) as [[nodes3 e2] er2].
+      inversion H; subst; clear H.
+      split; [intros m a t Hm; rewrite Hfail in Hm; auto|].
+      split; [intros Hno; specialize (Hd3 Hno); discriminate|].
+      split; [intros _; split; [reflexivity | intros m Hm; apply mark_set_false; assumption]|].
       split; [apply inv_remove; assumption | reflexivity].
+    + inversion H; subst; clear H.
+      split; [assumption|].
+      split; [intros Hno; specialize (Hd3 Hno); discriminate|].
+      split; [discriminate|]. split; [|reflexivity].
+      apply (inv_replace s n nodes1 c); simpl; auto.
+  - inversion H; subst; clear H.
+    split; [assumption|].
+    split; [intros _; split; [discriminate | exact Hclean_rm]|].
+    split; [discriminate|].
+    split; [apply inv_remove; assumption | reflexivity].
 Qed.
 
 Lemma recon_nocmd : forall s n fget fdel fut fcl,
@@ -599,7 +631,7 @@ Lemma cleanup_facts : forall s fut fcl s' r e,
 Proof.
   intros s fut fcl s' r e Hinv H. unfold cleanup in H.
   assert (Hw : forall nodes, inv (mkState (s_n s) nodes (s_q s) (s_keys s) (s_repl s) (s_now s) (s_next s))).
-  { intros nodes. apply (inv_weaken s); simpl; auto using incl_refl. }
+  { intros nodes. apply (inv_weaken s); simpl; auto using incl_refl. apply (inv_track s Hinv). }
   destruct (negb (synced s)).
   { inversion H; subst; clear H.
     split; [reflexivity|]. split; [reflexivity|]. split; [reflexivity|]. split; [assumption|].
@@ -629,18 +661,23 @@ Lemma env_facts : forall s o s' r e,
   | _ => e = [] /\ r = EnvOk /\ inv s' /\ s_n s' = s_n s end.
 Proof.
   intros s o s' r e Hinv H.
-  assert (Hrepl : forall k j f, (forall x, r_init x = true -> r_init (f x) = true) -> inv (env_repl s k j f)).
-  { intros k j f Hf. apply (inv_weaken s); simpl; auto using incl_refl.
-    intros k' j' _ Hi. unfold upd2. destruct ((k' =? k) && (j' =? j)) eqn:E; [|assumption].
-    apply andb_true_iff in E. destruct E as [E1 E2]. apply Nat.eqb_eq in E1. apply Nat.eqb_eq in E2. subst. auto. }
+  pose proof (inv_track s Hinv) as Htrack.
+  assert (Hrepl : forall k j f, (forall x, r_init x = true -> r_init (f x) = true) ->
+            (forall x, (r_exists x = true -> r_st x = true) -> r_exists (f x) = true -> r_st (f x) = true) ->
+            inv (env_repl s k j f)).
+  { intros k j f Hf Hg. apply (inv_weaken s); simpl; auto using incl_refl.
+    - intros k' j' _ Hi. unfold upd2. destruct ((k' =? k) && (j' =? j)) eqn:E; [|assumption].
+      apply andb_true_iff in E. destruct E as [E1 E2]. apply Nat.eqb_eq in E1. apply Nat.eqb_eq in E2. subst. auto.
+    - intros k' j'. unfold upd2. destruct ((k' =? k) && (j' =? j)) eqn:E; [|apply Htrack].
+      apply Hg. apply Htrack. }
   destruct o; simpl in H; auto; inversion H; subst; clear H; (split; [reflexivity|]); (split; [reflexivity|]); (split; [|reflexivity]).
-  - apply Hrepl. intros x Hx. destruct (r_exists x); simpl; assumption.
-  - apply Hrepl. intros x Hx. destruct (r_exists x); simpl; auto.
-  - apply Hrepl. intros x Hx. simpl. assumption.
-  - apply Hrepl. intros x Hx. simpl. assumption.
+  - apply Hrepl; intros x Hx; destruct (r_exists x) eqn:Ex; simpl; rewrite ?Ex; auto; try discriminate.
+  - apply Hrepl; intros x Hx; destruct (r_exists x) eqn:Ex; simpl; rewrite ?Ex; auto; try discriminate.
+  - apply Hrepl; intros x Hx; simpl; auto; try discriminate.
+  - apply Hrepl; intros x Hx; destruct (r_exists x) eqn:Ex; simpl; rewrite ?Ex; auto; try discriminate.
   - apply (inv_weaken s); simpl; auto using incl_refl.
   - apply (inv_weaken s); simpl; auto using incl_refl.
-  - constructor; simpl; try (intros; contradiction). constructor.
+  - constructor; simpl; try (intros; contradiction); auto. constructor.
 Qed.
 
 Lemma step_inv : forall s o, inv s -> inv (fst (step s o)).
@@ -718,15 +755,22 @@ Qed.
 
 (* ------------------------------------------------------------------ (1) delete after all replacements initialized *)
 
+Lemma in_cmds_of : forall s n c, find (holds_node n) (s_q s) = Some c -> In c (cmds_of (snap_of s) n).
+Proof.
+  intros s n c Hf. unfold cmds_of. simpl. apply filter_In. destruct (find_holds _ _ _ Hf) as [Hq Hn].
+  split; [assumption | apply mem_In; assumption].
+Qed.
+
 Lemma del_after_init_step : forall s o, inv s -> del_after_init (ostep_of s o).
 Proof.
-  intros s o Hinv. unfold ostep_of, del_after_init. simpl o_eff. intros n r Hin.
+  intros s o Hinv. unfold ostep_of, del_after_init. simpl o_eff. intros n a t Hin.
   destruct (recon_node o) as [m|] eqn:Er.
   - destruct o; simpl in Er; try discriminate. inversion Er; subst; clear Er.
     simpl in Hin. destruct (find (holds_node m) (s_q s)) as [c|] eqn:Ef.
     + destruct (recon s m fget fdel fut fcl) as [s' [r' e]] eqn:E. simpl in Hin.
       pose proof (recon_facts _ _ _ _ _ _ _ _ _ _ Hinv Ef E) as [F1 _].
-      destruct (F1 n r Hin) as [Hc [Hj _]]. exists c. split; [apply (find_holds _ _ _ Ef)|].
+      destruct (F1 n a t Hin) as [Hc [Ht [Hj _]]]. split; [assumption|].
+      exists c. split; [apply (find_holds _ _ _ Ef)|].
       split; [assumption|]. intros j Hlt. destruct (Hj j Hlt). apply repl_inited_intro; assumption.
     + rewrite recon_nocmd in Hin by assumption. simpl in Hin. contradiction.
   - rewrite step_deletes_nonrecon in Hin by assumption. contradiction.
@@ -735,96 +779,170 @@ Qed.
 Lemma delete_after_all_initialized_l : forall n ops, Forall del_after_init (trace (init n) ops).
 Proof. intros n ops. apply trace_forall; [exact del_after_init_step | apply inv_init]. Qed.
 
-(* (1') at the Delete call every replacement still exists: holds for the replacements latched in the same
-   pass; refuted for replacements latched by an earlier pass *)
-Definition fresh_latches (x : ostep) : Prop :=
-  let '(pre, op, _) := x in
-  forall n c, recon_node op = Some n -> In c (cmds_of pre n) -> forall b, In b (c_latched c) -> b = false.
-
-Lemma del_while_ready_step : forall s o, inv s -> fresh_latches (ostep_of s o) -> del_while_ready (ostep_of s o).
+(* (1') against the API itself: holds whenever the deletions of the command's replacements have been
+   delivered to the cluster state; refuted without that (informer lag) *)
+Lemma del_while_ready_step : forall s o, inv s -> deliveries_done (ostep_of s o) -> del_while_ready (ostep_of s o).
 Proof.
-  intros s o Hinv Hfresh. unfold ostep_of, del_while_ready, fresh_latches in *. simpl o_eff. intros n r Hin.
+  intros s o Hinv Hdone. unfold ostep_of, del_while_ready, deliveries_done in *. simpl o_eff. intros n a t Hin.
   destruct (recon_node o) as [m|] eqn:Er.
   - destruct o; simpl in Er; try discriminate. inversion Er; subst; clear Er.
     simpl in Hin. destruct (find (holds_node m) (s_q s)) as [c|] eqn:Ef.
     + destruct (recon s m fget fdel fut fcl) as [s' [r' e]] eqn:E. simpl in Hin.
       pose proof (recon_facts _ _ _ _ _ _ _ _ _ _ Hinv Ef E) as [F1 _].
-      destruct (F1 n r Hin) as [_ [_ Hr]]. apply Hr.
-      apply (Hfresh m c eq_refl). unfold cmds_of. simpl. apply filter_In.
-      destruct (find_holds _ _ _ Ef) as [Hq Hn]. split; [assumption | apply mem_In; assumption].
+      destruct (F1 n a t Hin) as [_ [_ [_ Hr]]]. apply Hr. intros j Hj Hex.
+      apply (Hdone m c eq_refl (in_cmds_of _ _ _ Ef) j (s_repl s (c_id c) j) Hj); [|assumption].
+      simpl. apply in_map_iff. exists (c_id c, j). split; [reflexivity|].
+      destruct (find_holds _ _ _ Ef) as [Hq _]. eapply inv_keys; eauto.
     + rewrite recon_nocmd in Hin by assumption. simpl in Hin. contradiction.
   - rewrite step_deletes_nonrecon in Hin by assumption. contradiction.
 Qed.
 
 Lemma delete_while_replacements_exist_partial_l : forall n ops,
-  Forall (fun x => fresh_latches x -> del_while_ready x) (trace (init n) ops).
+  Forall (fun x => deliveries_done x -> del_while_ready x) (trace (init n) ops).
 Proof. intros n ops. apply trace_forall; [exact del_while_ready_step | apply inv_init]. Qed.
 
-(* two replacements; the first initializes and is latched; it is then deleted; the second initializes;
-   the candidates are deleted although the first replacement no longer exists *)
-Definition gone_witness : list op :=
+(* two replacements; the first initializes and is latched; it is then deleted from the API but the
+   informer has not delivered the deletion; the second initializes; the candidates are deleted *)
+Definition lag_witness : list op :=
   [Start [0; 1] 2 [] [] []; ReplLaunch 0 0; ReplLaunch 0 1; ReplInit 0 0; Recon 0 [] [] [] [];
-   ReplDelApi 0 0; ReplDelState 0 0; ReplInit 0 1; Recon 0 [] [] [] []].
+   ReplDelApi 0 0; ReplInit 0 1; Recon 0 [] [] [] []].
 
 Lemma delete_while_replacements_exist_refuted_l :
   exists n ops, ~ Forall del_while_ready (trace (init n) ops).
 Proof.
-  exists 2, gone_witness. intros H.
-  assert (E : forallb del_while_ready_b (trace (init 2) gone_witness) = false) by (vm_compute; reflexivity).
-  assert (E' : forallb del_while_ready_b (trace (init 2) gone_witness) = true).
+  exists 2, lag_witness. intros H.
+  assert (E : forallb del_while_ready_b (trace (init 2) lag_witness) = false) by (vm_compute; reflexivity).
+  assert (E' : forallb del_while_ready_b (trace (init 2) lag_witness) = true).
   { apply forallb_forall. intros x Hx. apply del_while_ready_reflect. rewrite Forall_forall in H. auto. }
   congruence.
 Qed.
 
+(* before 61c12d2bd the same happened even after the deletion had been delivered *)
+Definition gone_witness : list op :=
+  [Start [0; 1] 2 [] [] []; ReplLaunch 0 0; ReplLaunch 0 1; ReplInit 0 0; Recon 0 [] [] [] [];
+   ReplDelApi 0 0; ReplDelState 0 0; ReplInit 0 1; Recon 0 [] [] [] []].
+
+Lemma prefix_latched_replacement_gone_refuted_l :
+  ~ Forall del_after_init (trace_old (init 2) gone_witness) /\ Forall del_after_init (trace (init 2) gone_witness).
+Proof.
+  split.
+  - intros H.
+    assert (E : forallb del_after_init_b (trace_old (init 2) gone_witness) = false) by (vm_compute; reflexivity).
+    assert (E' : forallb del_after_init_b (trace_old (init 2) gone_witness) = true).
+    { apply forallb_forall. intros x Hx. apply del_after_init_reflect. rewrite Forall_forall in H. auto. }
+    congruence.
+  - apply delete_after_all_initialized_l.
+Qed.
+
 (* ------------------------------------------------------------------ (2) a failed command deletes nothing *)
 
-Lemma failed_deletes_nothing_step : forall s o, inv s ->
-  (forall n, recon_node o = Some n -> within_timeout (snap_of s) n = true) ->
-  failed_deletes_nothing (ostep_of s o).
+Lemma lookup_in : forall A (l : list (nat * A)) k v, lookup l k = Some v -> In (k, v) l.
 Proof.
-  intros s o Hinv Hwt. unfold ostep_of, failed_deletes_nothing. simpl o_eff. simpl o_ret. intros Hr.
-  destruct (recon_node o) as [m|] eqn:Er.
-  - destruct o; simpl in Er; try discriminate. inversion Er; subst; clear Er.
-    specialize (Hwt m eq_refl). simpl in Hr |- *.
-    destruct (find (holds_node m) (s_q s)) as [c|] eqn:Ef.
-    + destruct (recon s m fget fdel fut fcl) as [s' [r' e]] eqn:E. simpl in Hr |- *.
-      pose proof (recon_facts _ _ _ _ _ _ _ _ _ _ Hinv Ef E) as [_ [F2 _]].
-      assert (Ht : (retry_ms (s_q s) <? s_now s - c_created c)%Z = false).
-      { unfold within_timeout in Hwt. rewrite forallb_forall in Hwt.
-        assert (Hc : In c (cmds_of (snap_of s) m)).
-        { unfold cmds_of. simpl. apply filter_In. destruct (find_holds _ _ _ Ef) as [Hq Hn].
-          split; [assumption | apply mem_In; assumption]. }
-        specialize (Hwt c Hc). simpl in Hwt. apply Z.leb_le in Hwt. apply Z.ltb_ge. assumption. }
-      destruct (F2 Hr Ht) as [D [Dl _]]. split; [assumption|].
-      intros n c' Hn Hc' d Hd. inversion Hn; subst.
-      rewrite (cmds_of_uniq _ _ _ _ Hinv Ef Hc') in Hd. auto.
-    + rewrite recon_nocmd in Hr by assumption. simpl in Hr. discriminate.
-  - split; [apply step_deletes_nonrecon; assumption | intros; discriminate].
+  induction l as [|[k' v'] t IH]; simpl; intros k v H; [discriminate|].
+  destruct (k' =? k) eqn:E; [apply Nat.eqb_eq in E; inversion H; subst; auto | auto].
 Qed.
 
-Definition timely (x : ostep) : Prop :=
-  let '(pre, op, _) := x in forall n, recon_node op = Some n -> within_timeout pre n = true.
-
-Lemma failed_command_deletes_nothing_partial_l : forall n ops,
-  Forall (fun x => timely x -> failed_deletes_nothing x) (trace (init n) ops).
+Lemma nofail_lookup : forall fdel, forallb (fun kv => negb (fails (snd kv))) fdel = true ->
+  forall m, call_result true (lookup fdel m) <> Failed.
 Proof.
-  intros n ops. apply trace_forall; [|apply inv_init].
-  intros s o Hinv Ht. apply failed_deletes_nothing_step; assumption.
+  intros fdel H m. destruct (lookup fdel m) as [f|] eqn:E; [|simpl; discriminate].
+  apply lookup_in in E. rewrite forallb_forall in H. specialize (H (m, f) E). simpl in H.
+  apply negb_true_iff in H. unfold fails in H. intros Hc. rewrite Hc in H. discriminate.
 Qed.
 
-(* one replacement, launched and Initialized; the queue's next pass comes 600001 ms after the command
-   was created: the candidate is deleted and the command is reported failed and rolled back *)
-Definition timeout_witness : list op :=
-  [Start [0] 1 [] [] []; ReplLaunch 0 0; ReplInit 0 0; Advance 600001; Recon 0 [] [] [] []].
+Lemma step_clean : forall s o, inv s -> clean (s_q s) -> nofail_op o = true ->
+  clean (s_q (fst (step s o))) /\ failed_deletes_nothing (ostep_of s o).
+Proof.
+  intros s o Hinv Hcl Hno. unfold ostep_of, failed_deletes_nothing. simpl o_ret. simpl o_eff.
+  destruct (step s o) as [s' [r e]] eqn:E. simpl.
+  destruct o.
+  - (* Start *)
+    simpl in E. pose proof (start_facts _ _ _ _ _ _ _ _ _ Hinv E) as [D [Herr [_ [_ [_ Hr]]]]].
+    split.
+    + destruct Hr as [->|Hr].
+      * (* Started: the queue grew by a command that has deleted nothing *)
+        clear - E Hcl. unfold start in E.
+        repeat match type of E with
+        | context [let '(_, _) := ?x in _] => destruct x
+        | context [if ?x then _ else _] => destruct x
+        end; inversion E; subst; simpl; auto.
+        intros c Hc d Hd. apply in_app_or in Hc. destruct Hc as [Hc|[<-|[]]]; [eapply Hcl; eauto|].
+        simpl in Hd. apply repeat_spec in Hd. assumption.
+      * destruct (Herr Hr) as [-> _]. assumption.
+    + intros Hf. split; [assumption | intros; discriminate].
+  - (* Recon *)
+    simpl in E, Hno. destruct (find (holds_node n) (s_q s)) as [c|] eqn:Ef.
+    + pose proof (recon_facts _ _ _ _ _ _ _ _ _ _ Hinv Ef E) as [_ [F2 _]].
+      destruct (F2 (nofail_lookup _ Hno)) as [Hd Hc]. split; [auto|].
+      intros Hr. split; [auto|]. intros m c' Hm Hc' d Hdd. inversion Hm; subst.
+      rewrite (cmds_of_uniq _ _ _ _ Hinv Ef Hc') in Hdd.
+      destruct (find_holds _ _ _ Ef) as [Hq _]. eapply Hcl; eauto.
+    + rewrite recon_nocmd in E by assumption. inversion E; subst. split; [assumption | discriminate].
+  - simpl in E. pose proof (cleanup_facts _ _ _ _ _ _ Hinv E) as [D [-> _]]. split; [assumption|].
+    intros _. split; [assumption | intros; discriminate].
+  - pose proof (env_facts _ _ _ _ _ Hinv E) as Hf; simpl in Hf. destruct Hf as [-> [-> _]].
+    simpl in E. inversion E; subst. split; [assumption | discriminate].
+  - pose proof (env_facts _ _ _ _ _ Hinv E) as Hf; simpl in Hf. destruct Hf as [-> [-> _]].
+    simpl in E. inversion E; subst. split; [assumption | discriminate].
+  - pose proof (env_facts _ _ _ _ _ Hinv E) as Hf; simpl in Hf. destruct Hf as [-> [-> _]].
+    simpl in E. inversion E; subst. split; [assumption | discriminate].
+  - pose proof (env_facts _ _ _ _ _ Hinv E) as Hf; simpl in Hf. destruct Hf as [-> [-> _]].
+    simpl in E. inversion E; subst. split; [assumption | discriminate].
+  - pose proof (env_facts _ _ _ _ _ Hinv E) as Hf; simpl in Hf. destruct Hf as [-> [-> _]].
+    simpl in E. inversion E; subst. split; [assumption | discriminate].
+  - pose proof (env_facts _ _ _ _ _ Hinv E) as Hf; simpl in Hf. destruct Hf as [-> [-> _]].
+    simpl in E. inversion E; subst. split; [assumption | discriminate].
+  - pose proof (env_facts _ _ _ _ _ Hinv E) as Hf; simpl in Hf. destruct Hf as [-> [-> _]].
+    simpl in E. inversion E; subst. split; [intros c [] | discriminate].
+Qed.
+
+(* as long as no Delete call fails on all its attempts, a command that is given up - replacement gone
+   or timeout, at any time - has deleted nothing, in this pass or before *)
+Lemma failed_command_deletes_nothing_l : forall n ops,
+  forallb nofail_op ops = true -> Forall failed_deletes_nothing (trace (init n) ops).
+Proof.
+  intros n ops. assert (G : forall ops s, inv s -> clean (s_q s) -> forallb nofail_op ops = true ->
+                             Forall failed_deletes_nothing (trace s ops)).
+  { induction ops0 as [|o t IH]; intros s Hinv Hcl Hno; [constructor|].
+    simpl in Hno. apply andb_true_iff in Hno. destruct Hno as [Ho Ht].
+    rewrite trace_cons. destruct (step_clean s o Hinv Hcl Ho) as [Hcl' Hf].
+    constructor; [assumption | apply IH; [apply step_inv; assumption | assumption | assumption]]. }
+  intros Hno. apply G; [apply inv_init | intros c [] | assumption].
+Qed.
+
+(* two candidates, one replacement, ready; the Delete of node 1 fails on all 4 attempts while node 0 is
+   deleted; the command then times out (or its replacement vanishes) and is rolled back although node 0
+   is being deleted *)
+Definition partial_witness : list op :=
+  [Start [0; 1] 1 [] [] []; ReplLaunch 0 0; ReplInit 0 0; Recon 0 [] [(1, (OnWrite, KFail 4))] [] [];
+   Advance 600001; Recon 0 [] [(1, (OnWrite, KFail 4))] [] []].
 
 Lemma failed_command_deletes_nothing_refuted_l :
   exists n ops, ~ Forall failed_deletes_nothing (trace (init n) ops).
 Proof.
-  exists 1, timeout_witness. intros H.
-  assert (E : forallb failed_deletes_nothing_b (trace (init 1) timeout_witness) = false) by (vm_compute; reflexivity).
-  assert (E' : forallb failed_deletes_nothing_b (trace (init 1) timeout_witness) = true).
+  exists 2, partial_witness. intros H.
+  assert (E : forallb failed_deletes_nothing_b (trace (init 2) partial_witness) = false) by (vm_compute; reflexivity).
+  assert (E' : forallb failed_deletes_nothing_b (trace (init 2) partial_witness) = true).
   { apply forallb_forall. intros x Hx. apply failed_deletes_nothing_reflect. rewrite Forall_forall in H. auto. }
   congruence.
+Qed.
+
+(* before 14eb43d3c no fault was needed: a pass that deleted every candidate after the timeout was reported failed *)
+Definition timeout_witness : list op :=
+  [Start [0] 1 [] [] []; ReplLaunch 0 0; ReplInit 0 0; Advance 600001; Recon 0 [] [] [] []].
+
+Lemma prefix_timeout_wrapper_refuted_l :
+  forallb nofail_op timeout_witness = true /\
+  ~ Forall failed_deletes_nothing (trace_old (init 1) timeout_witness) /\
+  Forall failed_deletes_nothing (trace (init 1) timeout_witness).
+Proof.
+  split; [reflexivity|]. split.
+  - intros H.
+    assert (E : forallb failed_deletes_nothing_b (trace_old (init 1) timeout_witness) = false) by (vm_compute; reflexivity).
+    assert (E' : forallb failed_deletes_nothing_b (trace_old (init 1) timeout_witness) = true).
+    { apply forallb_forall. intros x Hx. apply failed_deletes_nothing_reflect. rewrite Forall_forall in H. auto. }
+    congruence.
+  - apply failed_command_deletes_nothing_l. reflexivity.
 Qed.
 
 (* ------------------------------------------------------------------ (3) roll back *)
